@@ -145,7 +145,9 @@ static std::string modrun(const Args& a)
             if (g_api[size_t(k)].kind == 1) mod.source(g_api[size_t(k)].call);
             if (g_api[size_t(k)].kind == 2) mod.dest(g_api[size_t(k)].call);
         }
-        feed(int(rng() % 50));                  // audio while idle: discarded
+        // audio while idle (discarded) - or none at all: a re-key straight after wait_until_idle(), with no sample taken in IDLE in between
+        // (a PTT-gated microphone), must start from frame number 0 / LICH fragment 0 just the same
+        feed((rng() % 3 == 0) ? 0 : int(rng() % 50));
         while (aq->size() != 0) std::this_thread::sleep_for(1ms);
         std::this_thread::sleep_for(3ms);       // the modulator thread has taken the last idle sample
         mod.ptt_on();
